@@ -431,9 +431,10 @@ CLAIMED["C04"] = dict(
     engine="tok+xmltok+total", design_ref="6.4",
     technique="Lean 4 proof for the HTML tokenizer model: no-panic invariant (all panic sites explicit), termination of the "
               "run loop by a strictly decreasing measure below the fuel bound, feed drains, end() total with EOF last; the "
-              "same four results ported to the XML tokenizer model; runtime "
-              "totality (catch_unwind, per-case watchdog with bisection, 10^4..10^6 depth/length families) for the tree "
-              "builders and real stack/time",
+              "same four results ported to the XML tokenizer model; no-panic invariant of the HTML tree-builder model over all "
+              "insertion modes (49 panic sites unreachable for every token list, documents and fragments), XML tree-builder "
+              "model total; runtime totality (catch_unwind, per-case watchdog with bisection, 10^4..10^6 depth/length "
+              "families) for RcDom's contract, real stack and time",
     text="PARTIAL. Proved for html5ever's tokenizer + character-reference tokenizer (model, every input, chunking, start state, "
          "sink policy, option set): (1) every assert!/unwrap/expect/panic!/slice index/from_u32().unwrap() is unreachable from any "
          "freshly created tokenizer (invariant Safe preserved by every step; kernel-checked fact that all 2231 table values are "
@@ -445,9 +446,17 @@ CLAIMED["C04"] = dict(
          "emptied the queue (also at EOF); (4) end() completes for EVERY sink from every machine a feed can stop in - it never "
          "delivers a tag, so neither assert of end() can fail - and its last token is EOF; the eof_step loop needs at most 3 of its "
          "rounds. Proved for xml5ever's tokenizer model as well: (1), (2) with the same measure, (3), and end() total with EOF last "
-         "(C04_xml_parse_total: any chunk list then end() completes). Not proved "
-         "(a model cannot exhibit real stack exhaustion, allocator aborts or wall-clock time; the tree-builder models have no "
-         "totality theorem): exercised instead - every tokenizer cover case and stress string (HTML and XML, whole and chunked), "
+         "(C04_xml_parse_total: any chunk list then end() completes); the XML tree-builder model completes on every token list "
+         "(C16_no_panic). Proved for the HTML tree-builder model (Props/C04TB.lean; invariant TI preserved by all 21 insertion "
+         "modes, foreign content, the adoption agency, foster parenting, reset-the-insertion-mode; for EVERY token list, option "
+         "set, document start and fragment start with any context element): none of the 49 unwrap/expect/index/assert/"
+         "unreachable sites of tree_builder/mod.rs and rules.rs is reachable (open_elems non-empty and its html bottom never "
+         "popped, orig_mode set in Text / InTableText, template_modes non-empty under a template, head pointer set after head, "
+         "indices into the active formatting list in range, bookmark / furthest block found ...), the helper loops' fuel "
+         "suffices, end() is total; the Text-mode unreachable!() (rules.rs:1037) is reachable only by token lists that break "
+         "the tokenizer protocol (C04_tb_protocol_not_text). Not proved: that the builder's tree-MOVING sink calls stay inside "
+         "the TreeSink contract (RcDom's own asserts; C05) and the fuel of the model's reprocess loop; real stack exhaustion, "
+         "allocator aborts and wall-clock time cannot be exhibited by a model. Exercised instead - every tokenizer cover case and stress string (HTML and XML, whole and chunked), "
          "whole-parser runs on pathological documents/fragments/XML (every element class nested 3*10^3 deep in quick, 10^5 deep "
          "and 10^6 long in thorough), every element name x every fragment context, the adoption-agency / Noah's-ark / foster-"
          "parenting / foreign-named-element / CDATA-edge families as documents and fragments, must complete without panic/abort/hang, drain "
